@@ -35,7 +35,7 @@ PROP = "C20"
 MODNAME = __name__
 
 KINDS = ["entry", "string", "preamble", "ecomment", "icomment"]
-RETURNS = ["same", "none", "empty-list", "empty-tuple", "list1", "list2", "tuple3", "deque2", "dict-values1", "empty-deque", "generator", "object", "int0", "false", "list-with-nonblock", "str", "dict", "rename-same", "tag", "subclass", "library"]
+RETURNS = ["same", "none", "empty-list", "empty-tuple", "list1", "list2", "tuple3", "deque2", "dict-values1", "empty-deque", "generator", "object", "int0", "false", "list-with-nonblock", "str", "dict", "rename-same", "tag", "subclass", "mapping-subclass", "library"]
 
 
 def kind_of(b):
@@ -72,6 +72,15 @@ def make_result(ret, b):
             c.__class__ = _SubEntry
         elif type(b) is String:
             c.__class__ = _SubString
+        return c, [c]
+    if ret == "mapping-subclass":
+        # a subclass completing the mapping-style interface of the model class (sized, iterable): still one block -
+        # also when it is "empty" (an entry without fields is falsy then)
+        c = copy.deepcopy(b)
+        if type(b) is Entry:
+            c.__class__ = _MappingEntry
+        elif type(b) is String:
+            c.__class__ = _SizedString
         return c, [c]
     if ret == "library":
         return Library([copy.deepcopy(b)]), "TypeError"
@@ -130,6 +139,22 @@ class _SubEntry(Entry):
 
 class _SubString(String):
     pass
+
+
+class _MappingEntry(Entry):
+    def __len__(self):
+        return len(self.fields)
+
+    def __iter__(self):
+        return iter(f.key for f in self.fields)
+
+
+class _SizedString(String):
+    def __len__(self):
+        return 0
+
+    def __iter__(self):
+        return iter(())
 
 
 class LibProbe(LibraryMiddleware):
